@@ -15,7 +15,7 @@ import (
 )
 
 // Idle: an object is set up and used, then NOTHING happens to it for a few seconds (the quick tier: 4 s, the thorough tier:
-// 70 s), then it is used again. Every other check finishes with an object within milliseconds, so an entry that expires, a
+// 60 s), then it is used again. Every other check finishes with an object within milliseconds, so an entry that expires, a
 // cached stream that is wiped "after the retransmission period", received octets that are dropped when they are "too old"
 // cannot show; real SAs and half-finished EAP exchanges live for seconds to hours. The waiting overlaps with the rest of the
 // property's cases: the objects are prepared when the test starts and looked at again when it ends. No result depends on the
@@ -296,5 +296,5 @@ func idleFinish(c *probe.Ctx, prop, what string) {
 	if c.Shard != 0 {
 		return
 	}
-	idleChecks[prop].Eval(c, idleIn{What: what, Seconds: c.N(4, 70)})
+	idleChecks[prop].Eval(c, idleIn{What: what, Seconds: c.N(4, 60)})
 }
